@@ -120,6 +120,7 @@ def build(r, name, repr_key, n, mask, fieldless, generics=None, style=None):
     spec.attr_order_seed = r.choice([0, 1, 2, 3, 4, 5, 6])
     gen.add_noise(r, spec, enum_level=False, skip=("std_default",))
     gen.rawify(r, spec, explicit_names=False)
+    gen.maybe_macro_wrap(r, spec)
     for v in spec.variants:
         if v.kind == "tuple" and len(v.fields) == 1 and v.fields[0].ty in ("u8", "i32", "bool", "String") and r.random() < 0.3:
             v.default_with = "noise_default_with"     # EnumString's attribute: from_repr must still build Default::default()
